@@ -8,6 +8,10 @@ func init() {
 		Fixtures:    []string{"dec"},
 		Run:         runC16,
 		SelfTest: []Mutation{
+			{Name: "OFF header checks the sign of the vertex count only", File: "fileformats/off.go",
+				Old: "if numVerts < 0 || numFaces < 0 {", New: "if numVerts < 0 {", Rule: "DA.SIGN", Expect: "ReadOFF"},
+			{Name: "CSV reader accepts rows of any width", File: "fileformats/segment_csv.go",
+				Old: "csvReader.FieldsPerRecord = 4", New: "csvReader.FieldsPerRecord = -1", Rule: "DI.RANGE", Expect: "SegmentCSVReader"},
 			{Name: "fourth vertex of an ASCII facet stored without a bound test", File: "fileformats/stl.go",
 				Old: "\t\t\t} else if vertexIndex == 3 {\n\t\t\t\treturn normal, vertices, errors.New(\"more than three vertices in a facet\")\n\t\t\t}", New: "\t\t\t}", Rule: "DI.COUNTER", Expect: "readASCII"},
 			{Name: "zero-property rows decoded without consuming (defect repaired)", File: "fileformats/ply.go",
@@ -62,9 +66,12 @@ func runC16(c *Ctx) {
 	c.floor("DP", 3)
 	c.floor("DE", 1)
 	c.floor("DA", 8)
+	c.floor("DA.SIGN", 8)
 	c.floor("DL", 4)
 	s.ruleDICounter("DI.COUNTER")
 	c.floor("DI.COUNTER", 0)
+	s.ruleDIRange("DI.RANGE")
+	c.floor("DI.RANGE", 0)
 	s.ruleConsume("DL.CONSUME")
 	c.floor("DL.CONSUME", 1)
 	// (DR.SHORT / DR.LINE belong to the round-trip property C15: a short read or
